@@ -25,6 +25,15 @@ pub enum Req {
     RunBytes { program: String, env: String, flags: u32, max_cost: u64 },
     #[serde(rename = "serde")]
     Serde { func: String, data: String },
+    /// decode a choice tape into a program/environment (classic bytes, hex)
+    #[serde(rename = "gen")]
+    Gen { tape: Vec<u32>, what: String },
+    /// canonical integer encoding of a decimal string
+    #[serde(rename = "int_to_bytes")]
+    IntToBytes { value: String },
+    /// value (decimal) of an atom given as hex
+    #[serde(rename = "int_from_bytes")]
+    IntFromBytes { data: String },
     #[serde(rename = "features")]
     Features,
 }
@@ -145,6 +154,47 @@ pub fn handle(req: &Req) -> Resp {
             finish(&a, r, true)
         }
         Req::Serde { func, data } => serde_func(func, data),
+        Req::Gen { tape, what } => {
+            use crate::r#gen::programs::{ProgCfg, gen_program};
+            use crate::model::refserde::encode_classic;
+            let mut t = crate::tape::Tape::new(tape);
+            match what.as_str() {
+                "program" => {
+                    let cfg = ProgCfg { mutate_pct: 20, raw_pct: 5, reprs: false, ..Default::default() };
+                    let p = gen_program(&mut t, &cfg);
+                    let (Some(pb), Some(eb)) = (encode_classic(&p.prog, 1 << 20), encode_classic(&p.env, 1 << 20)) else {
+                        return Resp { kind: "TOOBIG".into(), ..Default::default() };
+                    };
+                    Resp { kind: "Ok".into(), value_hex: hex::encode(pb), err_node: hex::encode(eb), ..Default::default() }
+                }
+                "bytes" => {
+                    let b = crate::r#gen::bytes::gen_classic_bytes(&mut t);
+                    Resp { kind: "Ok".into(), value_hex: hex::encode(b), ..Default::default() }
+                }
+                _ => Resp { kind: "BADREQ".into(), ..Default::default() },
+            }
+        }
+        Req::IntToBytes { value } => {
+            use num_traits::Num;
+            let Ok(n) = clvmr::number::Number::from_str_radix(value, 10) else {
+                return Resp { kind: "BADREQ".into(), ..Default::default() };
+            };
+            let mut a = Allocator::new();
+            match a.new_number(n) {
+                Ok(p) => Resp { kind: "Ok".into(), value_hex: hex::encode(a.atom(p).as_ref()), ..Default::default() },
+                Err(e) => Resp { kind: err_kind(&e), msg: e.to_string(), ..Default::default() },
+            }
+        }
+        Req::IntFromBytes { data } => {
+            let Ok(b) = hex::decode(data) else {
+                return Resp { kind: "BADHEX".into(), ..Default::default() };
+            };
+            let mut a = Allocator::new();
+            match a.new_atom(&b) {
+                Ok(p) => Resp { kind: "Ok".into(), msg: a.number(p).to_string(), ..Default::default() },
+                Err(e) => Resp { kind: err_kind(&e), msg: e.to_string(), ..Default::default() },
+            }
+        }
         Req::Features => Resp {
             kind: "Ok".into(),
             msg: format!("nofast={} diag={}", cfg!(feature = "nofast"), cfg!(feature = "diag")),
